@@ -5,7 +5,7 @@ import re
 from ..core import sym
 from ..core.expand import u, call_name, get_arg, bind_args, Expander, is_marker, phi_alternatives
 from ..core.loader import Inconclusive, const_value, parents
-from .common import (read_tables, returns, all_nodes, callee, strip_shape, calls_in, guards_of, stmt_of, kw, find_assignments,
+from .common import (guarded_values, read_tables, returns, all_nodes, callee, strip_shape, calls_in, guards_of, stmt_of, kw, find_assignments,
                      dict_literal_items, in_loop)
 
 EXPLANATION = (
@@ -250,16 +250,26 @@ def rule_json(ck):
             g = P.funcs[h]
             prm = g.positional_params[0] if g.positional_params else None
             good = False
-            for n in all_nodes(g):
-                if isinstance(n, ast.If) and isinstance(n.test, ast.Call) and u(n.test.func) == 'isinstance' and len(n.test.args) == 2 \
-                        and u(n.test.args[0]) == prm:
-                    kinds = [P.canon(g, k_) for k_ in (n.test.args[1].elts if isinstance(n.test.args[1], ast.Tuple) else [n.test.args[1]])]
-                    rets = [r for st in n.body for r in ast.walk(st) if isinstance(r, ast.Return) and r.value is not None]
-                    conv = rets and all(isinstance(r.value, ast.Call) and (
-                        (isinstance(r.value.func, ast.Attribute) and r.value.func.attr in ('tolist', 'item') and u(r.value.func.value) == prm)
-                        or u(r.value.func) in ('int', 'float')) for r in rets)
-                    if ('numpy.generic' in kinds or {'numpy.integer', 'numpy.floating'} <= set(kinds)) and conv:
-                        good = True
+            # every value the handler can return, with the isinstance tests selecting it (if statement, guard clause or conditional expression)
+            for r in returns(g):
+                if r.value is None:
+                    continue
+                for val, gs in guarded_values(P, g, r.value, r, g.node):
+                    for txt, pol in gs:
+                        if not pol:
+                            continue
+                        try:
+                            t = ast.parse(txt, mode='eval').body
+                        except SyntaxError:
+                            continue
+                        if not (isinstance(t, ast.Call) and u(t.func) == 'isinstance' and len(t.args) == 2 and u(t.args[0]) == prm):
+                            continue
+                        kinds = [P.canon(g, k_) for k_ in (t.args[1].elts if isinstance(t.args[1], ast.Tuple) else [t.args[1]])]
+                        conv = isinstance(val, ast.Call) and (
+                            (isinstance(val.func, ast.Attribute) and val.func.attr in ('tolist', 'item') and u(val.func.value) == prm)
+                            or (u(val.func) in ('int', 'float') and len(val.args) == 1 and u(val.args[0]) == prm))
+                        if ('numpy.generic' in kinds or {'numpy.integer', 'numpy.floating'} <= set(kinds)) and conv:
+                            good = True
             (o.ok('%s maps numpy.generic to its Python number' % g.short) if good else
              o.fail('the default handler %s does not turn numpy scalars (numpy.generic) into Python numbers with .item()/.tolist()' % g.short))
         else:
